@@ -285,6 +285,22 @@ def build_shared_mps_qtz_map(mod: fx.GraphModule,
                 # If `c` contains an output node the output is not quantized
                 # precision ignored
                 sq_a = MPSPerLayerQtz((-1,), DummyQuantizer)
+            if n in get_graph_inputs(mod.graph) and w_search_type == MPSType.PER_CHANNEL:
+                # input-connected component: the layers that share the features of a network
+                # input (e.g., a depthwise conv applied to it) cannot be pruned either, so
+                # the precision '0' is removed from `weight_precisions` also in this case
+                if n.name in curr_qinfo.keys() and 'weight' in curr_qinfo[n.name]:
+                    key = n.name
+                else:
+                    key = 'layer_default'
+                w_quantizer = curr_qinfo[key]['weight']['quantizer']
+                w_quantizer_kwargs = curr_qinfo[key]['weight']['kwargs']
+                w_mps_precision = curr_qinfo[key]['weight']['search_precision']
+                w_quantizer_kwargs['cout'] = n.meta['tensor_meta'].shape[1]
+                new_w_mps_precision = tuple(p for p in w_mps_precision if p != 0)
+                sq_w = MPSPerChannelQtz(new_w_mps_precision,
+                                        w_quantizer,
+                                        w_quantizer_kwargs)
         for n in c:
             # if the flag 'disable_shared_quantizers' is set to True, then we can keep one quantizer
             # per connected component, which is the one defined in the previous for loop. Otherwise,
